@@ -300,8 +300,7 @@ def _gen_worker(args):
                 cssutils.log.raiseExceptions = True
             res['n'] += 1
             res['kinds'].add(label.split(':')[0])
-            # both preference sets for the default spelling, the lossless one (exact equality) for the others
-            fails = roundtrip(dom) if (sp is sps[0] or tier == 'thorough') else roundtrip(dom, configs=('lossless',))
+            fails = roundtrip(dom)
             for cl, detail in fails:
                 res['fails'].append({'clause': cl, 'detail': detail, 'info': {'domain': 'generator', 'label': label, 'sheet': gen.to_json(a), 'spelling': sp.describe(), 'text': text}})
     res['kinds'] = sorted(res['kinds'])
@@ -602,7 +601,7 @@ def edited_doms(ctx):
     t0 = time.time()
     n_ops = len(_ops())
     tasks = []
-    deep = list(BASES) if ctx.tier == 'thorough' else ['namespaces', 'at-rules']
+    deep = list(BASES) if ctx.tier == 'thorough' else ['two-rules', 'namespaces', 'at-rules']
     for base in BASES:
         depth = 2 if base in deep else 1
         total = len(_sequences(_ops(), depth, ctx.tier))
